@@ -61,8 +61,11 @@ func H_C03_tree() {
 	// parent carries attributes (so that its pre-rendered bytes exist, usually with spare capacity)
 	pv := vxString(vxParam("valLen"))
 	pchain := []c03Step{{key: "pk", val: pv}}
-	if vxPick(2) == 1 {
+	switch vxPick(3) {
+	case 1:
 		pchain = append([]c03Step{{group: "pg"}}, pchain...)
+	case 2:
+		pchain = append(pchain, c03Step{group: "pg"}) // the parent is itself the result of WithGroup on pre-rendered bytes
 	}
 	parent := root
 	for _, s := range pchain {
